@@ -82,9 +82,6 @@ Definition run_executor (ooo : bool) (v : view) (init : list fid) (ev : list eve
                     (completes ev ++ sort_N (futures_of v)) s in
   l1 ++ l2.
 
-Definition somes (l : list obs) : html :=
-  flat_map (fun o => match o with OSome s => s | _ => [] end) l.
-
 (** the harness' reference: every future complete before rendering, in-order stream *)
 Definition reference (v : view) : list obs :=
   let s := {| rs_sb := stream_of false (fun _ => true) v;
